@@ -289,6 +289,7 @@ fn mk_cert(w: &World, op: &CertOp) -> Certificate {
     // every field the witness code ignores is a function of aux; kinds 0 and 1 have no such field, kinds 5 and 6 no credential
     assert!(!(matches!(op.kind, 0 | 1) && aux != 0), "aux must be 0 for certificate kinds 0 and 1");
     assert!(!(matches!(op.kind, 5 | 6) && op.cred != Cred::K(0)), "credential must be K0 for certificate kinds 5 and 6");
+    assert!(op.kind != 3 || op.keys.windows(2).all(|w| w[0] < w[1]), "pool owners must be strictly increasing (they are a set)");
     let key_of = |cr: &Cred| match cr { Cred::K(k) => kh(*k), Cred::S(_) => Ed25519KeyHash::from_bytes(filler28(0xEE, aux)).unwrap() };
     match op.kind {
         0 => Certificate::new_stake_registration(&StakeRegistration::new(&c)),
@@ -610,7 +611,9 @@ impl G {
             let inline = if mixed { self.r.chance(1, 2) } else { s % 2 == 0 };
             let d = self.decl();
             let script = if inline { PSrc::Inline(s, d) } else { PSrc::Ref(110 + (s % 100), s, d) };
-            Wit::Plutus(PWit { script, datum: Dat::None, red: self.r.below(3) })
+            // a datum source is meaningless for these purposes on chain, but the API admits it and the builder collects it
+            let datum = match self.r.below(6) { 0 => Dat::Inline(self.r.below(4)), 1 => Dat::Ref(self.refo()), _ => Dat::None };
+            Wit::Plutus(PWit { script, datum, red: self.r.below(3) })
         }
     }
     fn script_id(&mut self) -> u64 {
@@ -651,7 +654,8 @@ impl G {
     fn cert(&mut self, kind: u32, script_pct: u64, mixed: bool, wrong_pct: u64, api_mismatch_pct: u64) -> CertOp {
         let keyed_only = matches!(kind, 3 | 4 | 5 | 6);
         let cred = if matches!(kind, 5 | 6) { Cred::K(0) } else if keyed_only { Cred::K(self.key()) } else { self.cred(script_pct) };
-        let keys = match kind { 3 => self.keys(3), 5 => vec![self.key(), self.key()], _ => vec![] };
+        // pool owners are a set in the library: the case lists them strictly increasing
+        let keys = match kind { 3 => { let mut k = self.keys(3); k.sort(); k.dedup(); k } 5 => vec![self.key(), self.key()], _ => vec![] };
         let needs = !matches!(kind, 0 | 3 | 4 | 5 | 6) && matches!(cred, Cred::S(_));
         let mismatch = self.r.below(100) < api_mismatch_pct;
         let wrong = self.r.below(100) < wrong_pct;
@@ -701,7 +705,8 @@ fn gen_mix(r: &mut Rng, label: &str, nkeys: u64, size: u64, readd: u8, mixed: bo
     for _ in 0..g.r.below(size / 3 + 1) {
         let scripted = g.r.chance(1, 2);
         let with = if scripted { !g.r.chance(1, 8) } else { g.r.chance(1, 8) };
-        let wit = if with { Wit::Plutus(g.pwit(mixed, false)) } else { Wit::None };
+        let wd = g.r.chance(1, 4);
+        let wit = if with { Wit::Plutus(g.pwit(mixed, wd)) } else { Wit::None };
         c.props.push((g.r.below(4), scripted, wit));
     }
     for _ in 0..g.r.below(size / 2 + 1) {
@@ -717,7 +722,7 @@ fn generate(out: &mut Out) {
     let seed = seed_from_env();
     let mut r = Rng::new(seed ^ 0xC18);
     let thorough = is_thorough();
-    let scale = if thorough { 40 } else { 4 };
+    let scale = if thorough { 240 } else { 10 };
     let mut emit = |c: Case| { let line = case_line(&c); let toks: Vec<String> = line.split(' ').map(|s| s.to_string()).collect(); let c2 = parse_case(&toks);
         let res = guarded(move || run_case(&c2)); out.emit(&line, &res); };
 
@@ -728,7 +733,7 @@ fn generate(out: &mut Out) {
             let mut c = Case::default(); c.label = format!("cert{}", kind);
             c.inputs = vec![InOp::Key(0, 0, false)];
             let mut op = g.cert(kind, if variant % 2 == 1 { 100 } else { 0 }, false, 0, 0);
-            if variant >= 2 { if let Cred::K(_) = op.cred { op.cred = Cred::K(0); } if kind == 5 { op.keys = vec![0, 1]; } if kind == 3 { op.keys = vec![0, 0, 2]; } }
+            if variant >= 2 { if let Cred::K(_) = op.cred { op.cred = Cred::K(0); } if kind == 5 { op.keys = vec![0, 1]; } if kind == 3 { op.keys = vec![0, 2]; } }
             if kind == 5 && variant == 1 { op.keys = vec![1, 0]; }
             c.certs.push(op);
             emit(finish(c));
@@ -784,7 +789,7 @@ fn generate(out: &mut Out) {
             match i % 3 { 0 => c.signers.push(*k), 1 => c.inputs.push(InOp::Key(i as u64, *k, false)), _ => c.collateral.push(InOp::Key(i as u64, *k, false)) }
         }
         for _ in 0..40 { let k = g.key(); c.signers.push(k); }
-        c.certs.push(CertOp { kind: 3, cred: Cred::K(0), keys: ks.iter().cloned().take(30).collect(), aux: 0, wit: Wit::None });
+        c.certs.push(CertOp { kind: 3, cred: Cred::K(0), keys: ks.iter().cloned().take(30).collect(), aux: 0, wit: Wit::None });  // increasing
         let n = g.r.below(4); c.inputs.extend((0..n).map(|j| InOp::Byron(1000 + j, j % 4, false)));
         emit(finish(c));
     }
@@ -811,8 +816,14 @@ fn generate(out: &mut Out) {
             let wit = match &cr { Cred::S(s) => g.wit_for(*s, false, false), _ => Wit::None };
             c.votes.push((kind, cr, wit));
         }
-        for _ in 0..(1 + g.r.below(4)) {
-            c.mint.push(if g.r.chance(1, 2) { MintOp::Native(g.nsrc(false)) } else { let p = g.psrc(false); MintOp::Plutus(p, g.r.below(2)) });
+        for _ in 0..(1 + g.r.below(5)) {
+            c.mint.push(match g.r.below(8) {
+                // a native reference source and a Plutus reference source declared with the SAME script hash (policy kind clash)
+                0 => { let s = *g.r.pick(&g.plutus.clone()); MintOp::Native(NSrc::Ref(110 + (s % 100), s, g.decl())) }
+                1 => { let i = g.r.below(g.native.len() as u64) as usize; let s = g.native[i].0; MintOp::Plutus(PSrc::Ref(100 + s, s, g.decl()), g.r.below(2)) }
+                2..=4 => MintOp::Native(g.nsrc(false)),
+                _ => { let p = g.psrc(false); MintOp::Plutus(p, g.r.below(2)) }
+            });
         }
         for _ in 0..g.r.below(3) { let with = g.r.chance(2, 3); let wit = if with { Wit::Plutus(g.pwit(false, false)) } else { Wit::None }; c.props.push((g.r.below(4), with, wit)); }
         emit(finish(c));
